@@ -537,6 +537,78 @@ func c07Skippable(c *Ctx, i int64, g *prng.Rng) {
 			c.Cell(fmt.Sprintf("skippable/magic%x/conc%d/%s", int(i)%16, conc, rdNames[mode]))
 		}
 	}
+	// the same stream from operating-system files: a pipe (not seekable), a regular file, and a regular
+	// file cut inside the last skippable frame's user data (seeking past the end of a file succeeds)
+	c07FromFiles(c, i, in, s, g)
+}
+
+func c07FromFiles(c *Ctx, i int64, in []byte, s *seedFrame, g *prng.Rng) {
+	readAll := func(what string, f *os.File, conc int) (out []byte, err error, panicky bool) {
+		panicky = c.Guard("Reader/"+what, func() {
+			r := lz4.NewReader(f)
+			if e := r.Apply(lz4.ConcurrencyOption(conc)); e != nil {
+				err = e
+				return
+			}
+			var buf bytes.Buffer
+			_, err = r.WriteTo(&buf)
+			out = buf.Bytes()
+		})
+		return
+	}
+	conc := []int{1, 4}[int(i)%2]
+	// pipe
+	if pr, pw, perr := os.Pipe(); perr == nil {
+		go func() {
+			_, _ = pw.Write(in)
+			_ = pw.Close()
+		}()
+		out, err, panicky := readAll("pipe", pr, conc)
+		_ = pr.Close()
+		c.Count("skippable_reads_from_os_files", 1)
+		if !panicky && (err != nil || !bytes.Equal(out, s.input)) {
+			c.Violation("skippable-frame-not-skipped-exactly/pipe", fmt.Sprintf("skippable frame(s) in front of a valid frame read from a pipe (*os.File, not seekable): Reader(conc %d) returns %d bytes, err=%v (content %d bytes)", conc, len(out), err, len(s.input)), map[string]interface{}{"input": hexs(head(in, 200)), "seed": s.name})
+		}
+		c.Cell(fmt.Sprintf("skippable/pipe/conc%d", conc))
+	}
+	// regular file, complete and cut inside the user data of the first skippable frame
+	first := int(binary.LittleEndian.Uint32(in[4:8]))
+	for v := 0; v < 2; v++ {
+		data := in
+		if v == 1 {
+			if first < 3 {
+				continue
+			}
+			data = in[:8+1+g.N(first-1)]
+		}
+		f, ferr := os.CreateTemp(".", "c07-skip-*")
+		if ferr != nil {
+			c.Count("temp_file_failures", 1)
+			return
+		}
+		name := f.Name()
+		_, _ = f.Write(data)
+		_ = f.Close()
+		rf, oerr := os.Open(name)
+		if oerr != nil {
+			_ = os.Remove(name)
+			continue
+		}
+		out, err, panicky := readAll("file", rf, conc)
+		_ = rf.Close()
+		_ = os.Remove(name)
+		c.Count("skippable_reads_from_os_files", 1)
+		if panicky {
+			continue
+		}
+		if v == 0 && (err != nil || !bytes.Equal(out, s.input)) {
+			c.Violation("skippable-frame-not-skipped-exactly/file", fmt.Sprintf("skippable frame(s) in front of a valid frame read from a regular file: Reader(conc %d) returns %d bytes, err=%v (content %d bytes)", conc, len(out), err, len(s.input)), map[string]interface{}{"input": hexs(head(in, 200)), "seed": s.name})
+		}
+		if v == 1 && err == nil {
+			c.Violation("truncated-skippable-frame-clean-eof/file", fmt.Sprintf("a regular file cut inside the user data of a skippable frame (%d of %d announced bytes present) is read to a clean end of stream by Reader(conc %d)", len(data)-8, first, conc), map[string]interface{}{"input": hexs(head(data, 200))})
+		}
+		c.Cell(fmt.Sprintf("skippable/file/cut%d/conc%d", v, conc))
+	}
 }
 
 // repeatSource streams N copies of a pattern (no memory), then a tail.
